@@ -1,5 +1,6 @@
 """C17 — archive extraction never writes outside the destination; ZipDir/UnzipDir round trip (DESIGN.md §7 C17)."""
 import concurrent.futures
+import hashlib
 import json
 import os
 import shutil
@@ -18,12 +19,19 @@ META = {
             "contents, file modes exactly, directory modes under the umask) and touches nothing else.  The model is "
             "tied to the code by differential runs inside a chroot sandbox (result and the whole file system before/"
             "after compared inside Coq), exhaustive small-string runs of filepath.Join/Rel/Dir, and a translator "
-            "obligation on the call skeleton of both extractors.",
+            "obligation on the call skeleton of both extractors.  Round 3: ANY sequence of zip/tar extractions into one "
+            "destination is confined; TarZipFile followed by the tar extractor is confined and, without a directory "
+            "prefix, reproduces ZipDir's tree; under umask 0 the zip round trip gives the tree itself; the exported "
+            "Cont.CopyOut / CopyOutFile and writeFirstFileAs are tied to the modelled extractors by decidable obligations "
+            "on their regenerated call skeletons; the harness also drives OpenInTemp, the exported dock entry points over "
+            "a scripted daemon, sequences of calls, every destination spelling with clear, contents around the copy "
+            "buffers and producer-side errors.",
     "note": "Trusted: Coq kernel + vm_compute; translator gen/arch.go; harness (chroot sandbox) and dock/verif_export.go "
             "shim; archive/zip and archive/tar byte formats and their readers' views (names, modes) are taken as "
             "reported; GODEBUG zipinsecurepath/tarinsecurepath at the module defaults; no symbolic links inside the "
             "destination; the process runs as root (permission-denied behaviour of read-only directories is not "
-            "observable); no axioms.",
+            "observable; the unreadable-directory case runs as uid 65534); the tar round trip with a directory prefix "
+            "is stated, not proved (stmt_tar_roundtrip_prefixed); no axioms.",
     "technique": "Coq proof (frame lemmas per file-system operation, induction over the entry list) + vm_compute "
                  "correspondence on sandboxed extractions + go/ast call skeleton",
 }
@@ -48,10 +56,17 @@ def ckey(path):
     return "[" + "; ".join(cb(s) for s in path.split("/") if s != "") + "]"
 
 
+def cdata(s):
+    """contents: the model only moves them around, so a long one travels as its digest"""
+    if len(s) > 200:
+        s = "sha256:" + hashlib.sha256(s.encode("latin-1", "replace")).hexdigest()
+    return cb(s)
+
+
 def cnode(n):
     if n["d"]:
         return "NDir %d" % n["m"]
-    return "NFile %d %s" % (n["m"], cb(n.get("c", "")))
+    return "NFile %d %s" % (n["m"], cdata(n.get("c", "")))
 
 
 def cfs(nodes):
@@ -61,7 +76,7 @@ def cfs(nodes):
 def centries(es):
     kind = {"file": "KFile", "dir": "KDir", "other": "KOther"}
     return "[" + "; ".join("{| e_name := %s; e_kind := %s; e_perm := %d; e_data := %s |}"
-                           % (cb(e["n"]), kind[e["k"]], e["m"], cb(e.get("c", ""))) for e in es or []) + "]"
+                           % (cb(e["n"]), kind[e["k"]], e["m"], cdata(e.get("c", ""))) for e in es or []) + "]"
 
 
 def to_coq(c):
@@ -73,8 +88,13 @@ def to_coq(c):
     if op == "dir":
         return ["CDir %s %s" % (cb(c["a"]), cb(c["out"]))]
     if op == "tarzip":
-        return ["CTarZip %s %s %s" % (cb(c["a"]), "[" + "; ".join(cb(e["n"]) for e in c.get("seen") or []) + "]",
-                                     "[" + "; ".join(cb(n) for n in c.get("outs") or []) + "]")]
+        out = ["CTarZip %s %s %s" % (cb(c["a"]), "[" + "; ".join(cb(e["n"]) for e in c.get("seen") or []) + "]",
+                                    "[" + "; ".join(cb(n) for n in c.get("outs") or []) + "]")]
+        if c.get("res") == "ok":
+            out.append("CTarZipFull %s %s %s" % (cb(c["a"]), centries(c.get("seen")), centries(c.get("outents"))))
+        return out
+    if op == "ziperr" or c.get("cut") or c.get("res") in ("intemp-error", "daemon-error") or "after" not in c:
+        return []       # producer-side errors, streams cut short, a daemon that refuses: oracle only
     if has_links(c):
         return []       # the file-system model has no symbolic links: observed, not modelled
     cfg = "{| cwd := %s; umask := %d |}" % (ckey(c.get("cwd", "/")), c["umask"])
@@ -83,9 +103,11 @@ def to_coq(c):
     if op == "firstfile":
         return ["CFirstFile %s %s %s %s %d %s" % (cfg, cb(c.get("dest", "")), centries(c.get("seen")),
                                                  cfs(c.get("before")), res, cfs(c.get("after")))]
-    if op == "untar":
+    if op in ("untar", "tzround"):
         out.append("CUntar %s %s %s %s %d %s" % (cfg, cb(c.get("dest", "")), centries(c.get("seen")),
                                                  cfs(c.get("before")), res, cfs(c.get("after"))))
+        if op == "tzround":
+            out.append("CTarZipFull %s %s %s" % (cb(c["a"]), centries(c.get("zseen")), centries(c.get("seen"))))
     else:
         out.append("CUnzip %s %s %s %s %s %d %s" % (cfg, cb(c.get("dest", "")), cbool(c["clear"]), centries(c.get("seen")),
                                                     cfs(c.get("before")), res, cfs(c.get("after"))))
@@ -135,11 +157,73 @@ def changed_paths(c):
     return out
 
 
+def goclean(p):
+    """path.Clean"""
+    if p == "":
+        return "."
+    rooted = p.startswith("/")
+    out = []
+    for s_ in p.split("/"):
+        if s_ in ("", "."):
+            continue
+        if s_ == "..":
+            if out and out[-1] != "..":
+                out.pop()
+            elif not rooted:
+                out.append("..")
+            continue
+        out.append(s_)
+    r = ("/" if rooted else "") + "/".join(out)
+    return r or "."
+
+
+def tarzip_oracle(dir_, zes, tes):
+    """TarZipFile: same entries in the same order, named path.Join(dir, name)"""
+    if len(zes) != len(tes):
+        return "%d zip entries became %d tar entries" % (len(zes), len(tes))
+    for z, t in zip(zes, tes):
+        want = z["n"] if dir_ == "" else goclean(dir_ + "/" + z["n"])
+        if t["n"] != want:
+            return "entry %r is named %r in the tar stream, not %r" % (z["n"], t["n"], want)
+        if t["k"] != z["k"] or t["m"] != z["m"]:
+            return "entry %r: kind/mode %s %o became %s %o" % (z["n"], z["k"], z["m"], t["k"], t["m"])
+        if z["k"] == "file" and t.get("c", "") != z.get("c", ""):
+            return "entry %r: %d bytes of content became %d bytes (or differ)" % (z["n"], len(z.get("c", "")), len(t.get("c", "")))
+    return None
+
+
 def impl_oracle(c):
     if c.get("crash"):
-        return ("impl:crash:%s" % c["op"], "extraction crashed: %s" % c["crash"][:200])
+        return ("impl:crash:%s" % c["op"], "%s crashed: %s" % (c["op"], c["crash"][:200]))
     op = c["op"]
-    if op not in ("unzip", "untar", "roundtrip", "zipfile", "firstfile") or "after" not in c:
+    if op == "ziperr":
+        if c["res"] == "ok":
+            names = sorted(n.rstrip("/") for n in c.get("outs") or [])
+            return ("impl:ziperr:%s-reported-as-success" % c["a"],
+                    "ZipDir/ZipFile returned nil although %s; the archive holds %r of the tree %r"
+                    % ({"missing": "the directory does not exist", "filemissing": "the file does not exist",
+                        "writer": "the writer failed", "writerfile": "the writer failed",
+                        "writerlate": "the writer failed (seen when the archive is closed)",
+                        "writerfilelate": "the writer failed (seen when the archive is closed)",
+                        "unreadable": "a sub-directory could not be read"}.get(c["a"], c["a"]),
+                       names, [n["p"] for n in c.get("tree") or []]))
+        return None
+    if op == "tarzip" and c.get("res") != "ok" and c.get("seen"):
+        return ("impl:tarzip:failed", "TarZipFile(dir=%r) failed on a zip file of regular files and directories %r: %s"
+                % (c.get("a"), [e["n"] for e in c["seen"]], c.get("err")))
+    if op == "tarzip" and c.get("res") == "ok" and "outents" in c:
+        why = tarzip_oracle(c.get("a", ""), c.get("seen") or [], c.get("outents") or [])
+        return ("impl:tarzip:entries-differ", "TarZipFile(dir=%r): %s" % (c.get("a"), why)) if why else None
+    if c.get("via") in ("tempfail", "tempcut") and c["res"] != "intemp-error":
+        return ("impl:intemp:accepted-a-failed-or-truncated-input",
+                "OpenInTemp returned a reader and no error for an input that %s"
+                % ("failed half-way" if c["via"] == "tempfail" else "ends 30 bytes early"))
+    if op not in ("unzip", "untar", "roundtrip", "zipfile", "firstfile", "tzround") or "after" not in c:
+        return None
+    if c.get("via") == "copyout404":
+        if c["res"] != "daemon-error" or changed_paths(c):
+            return ("impl:copyout:daemon-error-ignored", "the daemon answered 404: result %s, changed %r"
+                    % (c["res"], [p for p, _, _ in changed_paths(c)][:3]))
         return None
     dest = c["destabs"]
     # an extraction never creates a link, a device, a fifo or a socket
@@ -167,6 +251,48 @@ def impl_oracle(c):
         return ("impl:escape:%s" % op,
                 "%s %s %s, outside the destination %s (entries %r)"
                 % (op, what, p, dest, [e["n"] for e in c.get("seen") or []]))
+    if c.get("via") in ("temp", "temp2") and c["res"] == "intemp-error":
+        return ("impl:intemp:failed-on-a-good-archive", "OpenInTemp failed: %s" % c.get("err"))
+    if op == "tzround":
+        why = tarzip_oracle(c.get("a", ""), c.get("zseen") or [], c.get("seen") or [])
+        if why:
+            return ("impl:tarzip:entries-differ", "TarZipFile(dir=%r): %s" % (c.get("a"), why))
+        if c["res"] != "ok":
+            return ("impl:tzround:failed", "extracting TarZipFile's stream of ZipDir's archive failed: %s" % c.get("err"))
+        a = {n["p"]: n for n in c["after"]}
+        b = {n["p"]: n for n in c["before"]}
+        sub = goclean(c.get("a", "") or ".")
+        root = dest if sub == "." else dest + "/" + sub
+        for n in c["tree"]:
+            p = root if n["p"] == "" else root + "/" + n["p"]
+            got = a.get(p)
+            if got is None or got["d"] != n["d"]:
+                return ("impl:tzround:missing", "%r of the original tree is missing under %s" % (n["p"], root))
+            if not n["d"]:
+                if got.get("c", "") != n.get("c", ""):
+                    return ("impl:tzround:content", "content of %r differs after zip -> tar -> extraction" % n["p"])
+                if got["m"] != n["m"] & ~c["umask"]:
+                    return ("impl:tzround:filemode", "mode of %r: %o became %o (umask %o)" % (n["p"], n["m"], got["m"], c["umask"]))
+            elif p not in b and got["m"] != n["m"] & 0o1777 & ~c["umask"]:
+                return ("impl:tzround:dirmode", "mode of directory %r: %o became %o (umask %o)" % (n["p"], n["m"], got["m"], c["umask"]))
+    if c.get("expect") is not None and c["res"] != "ok":
+        return ("impl:%s:good-archive-failed" % c["stream"], "a good archive could not be extracted (%s%s): %s"
+                % (c.get("via") or "a later call on the same destination", ", " + c["pre"] if c.get("pre") else "", c.get("err")))
+    if c.get("expect") is not None and c["res"] == "ok":
+        a = {n["p"]: n for n in c["after"]}
+        want = {dest + "/" + n["p"]: n for n in c["expect"]}
+        got = {p: n for p, n in a.items() if under(p, dest) and p != dest}
+        for p in sorted(set(want) | set(got)):
+            w, g = want.get(p), got.get(p)
+            if w is None or g is None or w["d"] != g["d"]:
+                return ("impl:%s:dest-differs" % c["stream"], "after call %d of the sequence %s is %s, expected %s"
+                        % (c["i"] - (c.get("seqof") or c["i"] + 1) + 2, p, "absent" if g is None else "present",
+                           "absent" if w is None else ("a directory" if w["d"] else "a file")))
+            if not w["d"] and (g.get("c", "") != w.get("c", "") or g["m"] != w["m"]):
+                return ("impl:%s:dest-differs" % c["stream"], "after a later call of the sequence %s holds %r mode %o, expected %r mode %o"
+                        % (p, g.get("c", "")[:20], g["m"], w.get("c", "")[:20], w["m"]))
+            if w["d"] and g["m"] != w["m"] & 0o1777 & ~c["umask"]:
+                return ("impl:%s:dest-differs" % c["stream"], "directory %s has mode %o, expected %o" % (p, g["m"], w["m"] & ~c["umask"]))
     if op == "roundtrip":
         if c["res"] != "ok":
             if c["clear"]:
@@ -205,6 +331,8 @@ def impl_oracle(c):
 
 
 def trivial(c):
+    if c["op"] == "ziperr":
+        return False
     if c["op"] in ("fjoin", "rel"):
         return c["a"] == "" and c["b"] == ""
     if c["op"] == "dir":
@@ -254,7 +382,8 @@ def run(ck):
         sb = c.get("sandbox") or "\0"
         ck.count(c["stream"], key=(c["op"], c.get("a"), c.get("b"), (c.get("dest") or "").replace(sb, "%S"),
                                    (c.get("cwd") or "").replace(sb, "%S"), c.get("umask"),
-                                   c.get("clear"), json.dumps(c.get("setup")),
+                                   c.get("clear"), c.get("via"), c.get("pre"), c.get("cut"), c.get("zarg"), c.get("zcwd"),
+                                   (c["i"] - c["seqof"]) if c.get("seqof") else None, json.dumps(c.get("setup")),
                                    json.dumps(c.get("seen")).replace(sb, "%S"),
                                    json.dumps(c.get("tree"))), trivial=trivial(c))
         why = impl_oracle(c)
@@ -330,7 +459,14 @@ def run(ck):
              "trees (with set-user/group-ID and sticky bits) round-tripped through ZipDir/UnzipDir and ZipFile + entry "
              "types (zip entries with symlink/fifo/device/socket modes, tar symlink/hardlink/char/block/fifo/cont "
              "entries, each followed by an entry named through it) + destinations already holding symbolic links "
-             "(observed only) + writeFirstFileAs + tarutil.TarZipFile names + filepath.Join/Rel on all pairs over {a,.,/} "
+             "(observed only) + writeFirstFileAs + tarutil.TarZipFile names, kinds, modes and contents + round-3 usage patterns "
+             "(sequences of calls on one destination incl. after a refusal and after the destination was removed; clear=true "
+             "for every destination spelling over absent / populated / regular-file destinations; contents around the 32 KiB "
+             "and 64 KiB copy buffers; zip reader obtained through OpenInTemp on a fresh and a reused temp file, failing and "
+             "truncated inputs; the exported Cont.CopyOut / CopyOutFile over a scripted daemon; tar streams cut short; eight "
+             "spellings of ZipDir's and six of ZipFile's argument; ZipDir -> TarZipFile -> tar extraction; producer-side "
+             "errors: missing directory, unreadable sub-directory as uid 65534, writers failing early and at Close) "
+             "+ filepath.Join/Rel on all pairs over {a,.,/} "
              "up to length 3 (4 thorough) and filepath.Dir up to length 6 (8). A case is trivial when its archive is "
              "empty or its strings are empty; distinct = distinct (op, destination, cwd, umask, setup, entries)",
         assumptions=["a symbolic link that already exists inside the destination is followed by the kernel: out of the "
